@@ -12,6 +12,7 @@ Core Lean only.
 -/
 import ChibiVerif.Model.Layout
 import ChibiVerif.Spec.LayoutSpec
+import ChibiVerif.Spec.LayoutRegions
 import ChibiVerif.Lemmas.LayoutTotal
 
 set_option linter.unusedSimpArgs false
@@ -33,18 +34,6 @@ def SMem.WF (m : SMem) : Prop :=
 instance (m : SMem) : Decidable m.WF := by
   unfold SMem.WF
   cases m.bitWidth <;> exact inferInstance
-
-/-- region of known finding C08-packed-bitfield-straddle: packed struct with a bit-field of non-zero width -/
-def PackedWithBitfield (packed : Bool) (ms : List SMem) : Bool :=
-  packed && ms.any fun m => match m.bitWidth with | some w => w != 0 | none => false
-
-/-- region of known finding C08-packed-member-alignas: packed aggregate with a member that carries `_Alignas` -/
-def PackedWithMemberAlign (packed : Bool) (ms : List SMem) : Bool :=
-  packed && ms.any fun m => m.alignas != 0
-
-/-- region of known finding C08-packed-union-bitfield: packed union with a named bit-field -/
-def PackedUnionBitfield (packed : Bool) (ms : List SMem) : Bool :=
-  packed && ms.any fun m => m.bitWidth.isSome && m.named
 
 /-- the model's view of a member -/
 def SMem.toMem (m : SMem) : Mem :=
@@ -157,11 +146,11 @@ theorem alignToE_natCast (n a : Nat) (ha : 0 < a) : alignToE (n : Int) (a : Int)
 
 theorem tdiv_natCast8 (n : Nat) : Int.tdiv (n : Int) 8 = ((n / 8 : Nat) : Int) := tdiv_natCast n 8
 
-/-- the member is outside the packed known-finding regions -/
-def MemInScope (packed : Bool) (m : SMem) : Prop :=
-  packed = true → m.alignas = 0 ∧ (m.bitWidth = none ∨ m.bitWidth = some 0)
+/-- the member, placed when the first free bit is `cur`, is outside the packed known-finding regions -/
+def MemInScope (packed : Bool) (cur : Nat) (m : SMem) : Prop :=
+  packed = true → m.alignas ≤ 1 ∧ ∀ w, m.bitWidth = some w → straddlesAt cur m.size w = false
 
-theorem placeMember_eq (packed : Bool) (cur : Nat) (m : SMem) (hwf : m.WF) (hsc : MemInScope packed m) :
+theorem placeMember_eq (packed : Bool) (cur : Nat) (m : SMem) (hwf : m.WF) (hsc : MemInScope packed cur m) :
     placeMember packed cur m.toMem =
       .ok (((allocate packed cur m).2 : Nat), (placedAt m (allocate packed cur m).1).toPlaced) := by
   obtain ⟨size, tyAlign, alignas, bw, named⟩ := m
@@ -180,10 +169,9 @@ theorem placeMember_eq (packed : Bool) (cur : Nat) (m : SMem) (hwf : m.WF) (hsc 
       simp only [SPlaced.toPlaced, Except.ok.injEq, Prod.mk.injEq, Placed.mk.injEq, tdiv_natCast8]
       refine ⟨by omega, by omega, rfl⟩
     | true =>
-      have ⟨ha0, _⟩ := hsc rfl
-      subst ha0
-      simp only [placeMember, SMem.toMem, allocate, placedAt, SMem.reqAlign, if_true]
-      simp only [ne_eq, not_true_eq_false, if_false, Nat.mul_one]
+      have ⟨ha1, _⟩ := hsc rfl
+      have hr : (if alignas ≠ 0 then alignas else 1) = 1 := by split <;> omega
+      simp only [placeMember, SMem.toMem, allocate, placedAt, SMem.reqAlign, if_true, hr, Nat.mul_one]
       have e8 : (8 : Int) = ((8 : Nat) : Int) := rfl
       rw [e8, alignToE_natCast _ _ (by omega)]
       simp only [SPlaced.toPlaced, Except.ok.injEq, Prod.mk.injEq, Placed.mk.injEq, tdiv_natCast]
@@ -198,14 +186,21 @@ theorem placeMember_eq (packed : Bool) (cur : Nat) (m : SMem) (hwf : m.WF) (hsc 
       simp only [placeMember, SMem.toMem, allocate, placedAt, if_true, Int.natCast_eq_zero]
       rw [e1, alignToE_natCast _ _ (by omega)]
       simp [SPlaced.toPlaced]
-    · have hp : packed = false := by
-        cases packed with
-        | false => rfl
-        | true => have := (hsc rfl).2; simp at this; exact absurd this hw
-      subst hp
-      have hwz : ¬ ((w : Int) = 0) := by omega
+    · have hwz : ¬ ((w : Int) = 0) := by omega
       have hu : ¬ ((8 * tyAlign : Nat) : Int) = 0 := by omega
-      simp only [placeMember, SMem.toMem, allocate, placedAt, hw, hwz, if_false, Bool.false_eq_true]
+      -- in a packed struct the field is in scope only if it fits: then the spec's `packed` arm and its `fits` arm coincide
+      have hpk : packed = true → cur % (8 * tyAlign) + w ≤ 8 * tyAlign := by
+        intro hp
+        have := (hsc hp).2 w rfl
+        simpa [straddlesAt, hw] using this
+      have hal : allocate packed cur ⟨tyAlign, tyAlign, 0, some w, named⟩ =
+          (if cur % (8 * tyAlign) + w ≤ 8 * tyAlign then (cur, cur + w)
+           else (roundUp cur (8 * tyAlign), roundUp cur (8 * tyAlign) + w)) := by
+        cases packed with
+        | false => simp [allocate, hw]
+        | true => simp [allocate, hw, hpk rfl]
+      rw [hal]
+      simp only [placeMember, SMem.toMem, placedAt, hw, hwz, if_false, Bool.false_eq_true]
       rw [e1]
       simp only [hu, if_false]
       have e2 : ((cur : Int) + (w : Int) - 1) = ((cur + w - 1 : Nat) : Int) := by omega
@@ -228,7 +223,7 @@ theorem placeMember_eq (packed : Bool) (cur : Nat) (m : SMem) (hwf : m.WF) (hsc 
         refine ⟨by omega, ?_⟩
         simp [Nat.div_div_eq_div_mul]
 
-theorem stepAlign_eq (packed : Bool) (al : Nat) (m : SMem) (hwf : m.WF) (hsc : MemInScope packed m) (hal : 0 < al) :
+theorem stepAlign_eq (packed : Bool) (al cur : Nat) (m : SMem) (hwf : m.WF) (hsc : MemInScope packed cur m) (hal : 0 < al) :
     stepAlign packed al m.toMem = ((max al (m.contrib packed) : Nat) : Int) := by
   obtain ⟨size, tyAlign, alignas, bw, named⟩ := m
   obtain ⟨hta, hbf⟩ := hwf
@@ -244,10 +239,10 @@ theorem stepAlign_eq (packed : Bool) (al : Nat) (m : SMem) (hwf : m.WF) (hsc : M
       simp only [Nat.max_def]
       split <;> split <;> omega
     | true =>
-      have ⟨ha0, _⟩ := hsc rfl
-      subst ha0
+      have ⟨ha1, _⟩ := hsc rfl
+      have hr : (if alignas ≠ 0 then alignas else 1) = 1 := by split <;> omega
       simp only [stepAlign, Mem.unnamedBitfield, SMem.toMem, SMem.contrib, SMem.reqAlign, Option.isSome, Bool.false_and,
-        Bool.false_eq_true, if_false, Bool.not_true, if_true, ne_eq, not_true_eq_false]
+        Bool.false_eq_true, if_false, Bool.not_true, if_true, hr]
       simp only [Nat.max_def]
       split <;> omega
   | some w =>
@@ -268,8 +263,13 @@ theorem allocateAll_cons (p : Bool) (cur : Nat) (m : SMem) (ms : List SMem) :
 theorem aggAlign_cons (p : Bool) (a : Nat) (m : SMem) (ms : List SMem) :
     aggAlign p a (m :: ms) = aggAlign p (max a (m.contrib p)) ms := rfl
 
+/-- every member of the list, placed where the allocation rule puts it, is in scope -/
+def AllInScope (packed : Bool) : Nat → List SMem → Prop
+  | _, [] => True
+  | cur, m :: ms => MemInScope packed cur m ∧ AllInScope packed (allocate packed cur m).2 ms
+
 theorem structLoop_eq (packed : Bool) (ms : List SMem) : ∀ (cur al : Nat), 0 < al → (∀ m ∈ ms, m.WF) →
-    (∀ m ∈ ms, MemInScope packed m) →
+    AllInScope packed cur ms →
     structLoop packed cur al (ms.map SMem.toMem) =
       .ok (((allocateAll packed cur ms).1 : Nat), ((aggAlign packed al ms : Nat) : Int),
            (allocateAll packed cur ms).2.map SPlaced.toPlaced) := by
@@ -278,11 +278,11 @@ theorem structLoop_eq (packed : Bool) (ms : List SMem) : ∀ (cur al : Nat), 0 <
   | cons m ms ih =>
     intro cur al hal hwf hsc
     have hwm := hwf m (List.mem_cons_self ..)
-    have hsm := hsc m (List.mem_cons_self ..)
+    have hsm := hsc.1
     simp only [List.map_cons, structLoop, structStep, placeMember_eq packed cur m hwm hsm,
-      stepAlign_eq packed al m hwm hsm hal]
+      stepAlign_eq packed al cur m hwm hsm hal]
     rw [ih (allocate packed cur m).2 (max al (m.contrib packed)) (by omega)
-      (fun x hx => hwf x (List.mem_cons_of_mem _ hx)) (fun x hx => hsc x (List.mem_cons_of_mem _ hx))]
+      (fun x hx => hwf x (List.mem_cons_of_mem _ hx)) hsc.2]
     rw [allocateAll_cons, aggAlign_cons]
     rfl
 
@@ -292,7 +292,7 @@ theorem aggAlign_ge (p : Bool) (ms : List SMem) : ∀ a, a ≤ aggAlign p a ms :
   | cons m ms ih => intro a; rw [aggAlign_cons]; exact Nat.le_trans (Nat.le_max_left ..) (ih _)
 
 theorem structLayout_eq (packed : Bool) (aligned : Option Nat) (ms : List SMem)
-    (hal : ∀ n, aligned = some n → 0 < n) (hwf : ∀ m ∈ ms, m.WF) (hsc : ∀ m ∈ ms, MemInScope packed m) :
+    (hal : ∀ n, aligned = some n → 0 < n) (hwf : ∀ m ∈ ms, m.WF) (hsc : AllInScope packed 0 ms) :
     structLayout packed ((aligned.getD STRUCT_INIT_ALIGN : Nat) : Int) (ms.map SMem.toMem) =
       .ok (specStruct packed aligned ms).toLayout := by
   have h1 : STRUCT_INIT_ALIGN = 1 := rfl
@@ -313,7 +313,7 @@ theorem structLayout_eq (packed : Bool) (aligned : Option Nat) (ms : List SMem)
 
 /-- the union member is outside the packed known-finding regions -/
 def UMemInScope (packed : Bool) (m : SMem) : Prop :=
-  packed = true → m.alignas = 0 ∧ ¬ (m.bitWidth.isSome = true ∧ m.named = true)
+  packed = true → m.alignas ≤ 1 ∧ ∀ w, m.bitWidth = some w → m.named = true → m.size ≤ (w + 7) / 8
 
 /-- `ty->size` after one member, as `union_decl` computes it -/
 def codeExtent (m : SMem) : Nat :=
@@ -341,10 +341,10 @@ theorem unionStep_eq (packed : Bool) (sm a : Nat) (m : SMem) (hwf : m.WF) (hsc :
       simp only [Nat.max_def]
       constructor <;> split <;> split <;> omega
     | true =>
-      have ⟨ha0, _⟩ := hsc rfl
-      subst ha0
+      have ⟨ha1, _⟩ := hsc rfl
+      have hr : (if alignas ≠ 0 then alignas else 1) = 1 := by split <;> omega
       simp only [unionStep, SMem.toMem, codeExtent, SMem.contrib, SMem.reqAlign, Bool.not_true, Bool.false_and,
-        Bool.false_eq_true, if_false, if_true, ne_eq, not_true_eq_false, Prod.mk.injEq, Nat.max_def]
+        Bool.false_eq_true, if_false, if_true, hr, Prod.mk.injEq, Nat.max_def]
       constructor <;> split <;> (try split) <;> omega
   | some w =>
     obtain ⟨hsz, ha0, hts, hw8, hnm⟩ := hbf
@@ -356,14 +356,15 @@ theorem unionStep_eq (packed : Bool) (sm a : Nat) (m : SMem) (hwf : m.WF) (hsc :
         Prod.mk.injEq, Nat.max_def]
       constructor <;> split <;> (try split) <;> omega
     | true =>
-      have hp : packed = false := by
-        cases packed with
-        | false => rfl
-        | true => exact absurd ⟨rfl, rfl⟩ (hsc rfl).2
-      subst hp
-      simp only [unionStep, SMem.toMem, codeExtent, SMem.contrib, Bool.not_false, Bool.true_and, Bool.and_true,
-        decide_eq_true_eq, if_true, ne_eq, not_true_eq_false, if_false, Prod.mk.injEq, Nat.max_def]
-      constructor <;> split <;> (try split) <;> omega
+      cases packed with
+      | false =>
+        simp only [unionStep, SMem.toMem, codeExtent, SMem.contrib, Bool.not_false, Bool.true_and, Bool.and_true,
+          decide_eq_true_eq, if_true, ne_eq, not_true_eq_false, if_false, Prod.mk.injEq, Nat.max_def]
+        constructor <;> split <;> (try split) <;> omega
+      | true =>
+        simp only [unionStep, SMem.toMem, codeExtent, SMem.contrib, Bool.not_true, Bool.false_and, Bool.and_false,
+          Bool.false_eq_true, if_true, ne_eq, not_true_eq_false, if_false, Prod.mk.injEq, Nat.max_def]
+        constructor <;> split <;> (try split) <;> omega
 
 /-- what relates the running size of `union_decl` (`sm`) to the running extent of the spec (`ss`):
     they are equal, or both are positive and at most the alignment (then both round up to it) -/
@@ -394,19 +395,25 @@ theorem UInv_step (packed : Bool) (sm ss a : Nat) (m : SMem) (hwf : m.WF) (hsc :
       · split <;> split <;> omega
       · split <;> split <;> split <;> omega
     | true =>
-      have hp : packed = false := by
-        cases packed with
-        | false => rfl
-        | true => exact absurd ⟨rfl, rfl⟩ (hsc rfl).2
-      subst hp
       have hw0 := hnm rfl
       have hext : (w + 7) / 8 ≤ tyAlign := by omega
       have hext0 : 0 < (w + 7) / 8 := by omega
-      simp only [UInv, codeExtent, SMem.extent, SMem.contrib, Bool.not_false, Bool.and_true, if_true, Nat.max_def]
-      generalize (w + 7) / 8 = e at hext hext0 ⊢
-      constructor
-      · split <;> split <;> omega
-      · split <;> split <;> split <;> omega
+      cases packed with
+      | false =>
+        simp only [UInv, codeExtent, SMem.extent, SMem.contrib, Bool.not_false, Bool.and_true, if_true, Nat.max_def]
+        generalize (w + 7) / 8 = e at hext hext0 ⊢
+        constructor
+        · split <;> split <;> omega
+        · split <;> split <;> split <;> omega
+      | true =>
+        -- in scope only if the field is as wide (in bytes) as its declared type: then the code's extent is the spec's
+        have hge := (hsc rfl).2 w rfl rfl
+        simp only [UInv, codeExtent, SMem.extent, SMem.contrib, Bool.not_true, Bool.and_false, Bool.false_eq_true, if_false,
+          Nat.max_def]
+        generalize (w + 7) / 8 = e at hext hext0 hge ⊢
+        constructor
+        · split <;> split <;> omega
+        · split <;> split <;> split <;> omega
 
 
 theorem unionLoop_eq (packed : Bool) (ms : List SMem) : ∀ (sm ss a : Nat), 0 < a → (∀ m ∈ ms, m.WF) →
@@ -450,34 +457,46 @@ theorem unionLayout_eq (packed : Bool) (aligned : Option Nat) (ms : List SMem)
 
 /-! ### regions ⇒ per-member scope -/
 
+theorem allInScope_unpacked (ms : List SMem) : ∀ cur, AllInScope false cur ms := by
+  induction ms with
+  | nil => intro _; trivial
+  | cons m ms ih => intro cur; exact ⟨fun h => Bool.noConfusion h, ih _⟩
+
+theorem allInScope_packed (ms : List SMem) : ∀ cur, packedStraddle cur ms = false →
+    (∀ m ∈ ms, m.alignas ≤ 1) → AllInScope true cur ms := by
+  induction ms with
+  | nil => intro _ _ _; trivial
+  | cons m ms ih =>
+    intro cur h1 h2
+    simp only [packedStraddle, Bool.or_eq_false_iff] at h1
+    refine ⟨fun _ => ⟨h2 m (List.mem_cons_self ..), ?_⟩, ih _ h1.2 (fun x hx => h2 x (List.mem_cons_of_mem _ hx))⟩
+    intro w hw
+    have := h1.1
+    rw [hw] at this
+    exact this
+
 theorem memInScope_of_regions {packed : Bool} {ms : List SMem}
     (h1 : PackedWithBitfield packed ms = false) (h2 : PackedWithMemberAlign packed ms = false) :
-    ∀ m ∈ ms, MemInScope packed m := by
-  intro m hm hp
-  subst hp
-  simp only [PackedWithBitfield, PackedWithMemberAlign, Bool.true_and, List.any_eq_false] at h1 h2
-  have a1 := h1 m hm
-  have a2 := h2 m hm
-  refine ⟨by simpa using a2, ?_⟩
-  cases hb : m.bitWidth with
-  | none => exact Or.inl rfl
-  | some w =>
-    rw [hb] at a1
-    right
-    have : w = 0 := by simpa using a1
-    rw [this]
+    AllInScope packed 0 ms := by
+  cases packed with
+  | false => exact allInScope_unpacked ms 0
+  | true =>
+    simp only [PackedWithBitfield, PackedWithMemberAlign, Bool.true_and, List.any_eq_false, decide_eq_true_eq] at h1 h2
+    exact allInScope_packed ms 0 h1 (fun m hm => by have := h2 m hm; omega)
 
 theorem uMemInScope_of_regions {packed : Bool} {ms : List SMem}
     (h1 : PackedUnionBitfield packed ms = false) (h2 : PackedWithMemberAlign packed ms = false) :
     ∀ m ∈ ms, UMemInScope packed m := by
   intro m hm hp
   subst hp
-  simp only [PackedUnionBitfield, PackedWithMemberAlign, Bool.true_and, List.any_eq_false] at h1 h2
+  simp only [PackedUnionBitfield, PackedWithMemberAlign, Bool.true_and, List.any_eq_false, decide_eq_true_eq] at h1 h2
   have a1 := h1 m hm
   have a2 := h2 m hm
-  refine ⟨by simpa using a2, ?_⟩
-  rintro ⟨hb, hn⟩
-  simp [hb, hn] at a1
+  refine ⟨by omega, ?_⟩
+  intro w hw hn
+  rw [hw, hn] at a1
+  simp only [Bool.true_and, decide_eq_true_eq] at a1
+  omega
 
 /-! ### whole types (nested aggregates, arrays, pointers) -/
 
@@ -496,7 +515,7 @@ mutual
     | .union p al ms => ms.ok r && alignedOk al && (!r || (!PackedUnionBitfield p (specMembers ms) && !PackedWithMemberAlign p (specMembers ms)))
   def Aligns.ok (r : Bool) : Aligns → Bool
     | .nil => true
-    | .const n rest => decide (0 ≤ n) && rest.ok r
+    | .const n rest => (n == 0 || isPow2le28 n) && rest.ok r     -- C11 6.7.5p3: a valid alignment (power of two ≤ 2^28) or zero
     | .type t rest => t.ok r && rest.ok r
   def Members.ok (r : Bool) : Members → Bool
     | .nil => true
@@ -616,12 +635,19 @@ mutual
       as.eval (acc : Int) = .ok (((max acc (specAligns as) : Nat)) : Int)
     | .nil, _, acc => by simp [Aligns.eval, specAligns]
     | .const n rest, h, acc => by
-      simp only [Aligns.ok, Bool.and_eq_true, decide_eq_true_eq] at h
+      simp only [Aligns.ok, Bool.and_eq_true] at h
+      have hgood : alignedAttrBad n = false := (alignedAttrBad_iff n).2 (by simpa [isPow2le28_eq] using h.1)
+      have hn0 : 0 ≤ n := by
+        rcases (alignedAttrBad_iff n).1 hgood with h0 | hp
+        · omega
+        · have := pow2le28_pos hp; omega
+      replace h := And.intro hn0 h.2
+      have hbad : ¬ alignasConstBad n = true := by rw [alignasConstBad_eq, hgood]; simp
       have ih := as_eq rest h.2 (max acc n.toNat)
       have hc : alignasCombine (acc : Int) (alignasOfConst n) = ((max acc n.toNat : Nat) : Int) := by
         simp only [alignasCombine, alignasOfConst, Nat.max_def]
         by_cases h1 : (acc : Int) < n <;> by_cases h2 : acc ≤ n.toNat <;> simp only [h1, h2, if_true, if_false] <;> omega
-      simp only [Aligns.eval, hc, ih, specAligns, Nat.max_assoc]
+      simp only [Aligns.eval, hbad, Bool.false_eq_true, if_false, hc, ih, specAligns, Nat.max_assoc]
     | .type t rest, h, acc => by
       simp only [Aligns.ok, Bool.and_eq_true] at h
       have iht := ty_eq t h.1
@@ -709,7 +735,7 @@ mutual
     | .union _ al ms => by simp only [Ty.accepted, specAccepted, alignedAccepted_eq, accepted_eq_ms ms]
   theorem accepted_eq_as : ∀ (as : Aligns), as.accepted = specAcceptedAs as
     | .nil => rfl
-    | .const _ rest => by simp only [Aligns.accepted, specAcceptedAs]; exact accepted_eq_as rest
+    | .const n rest => by simp only [Aligns.accepted, specAcceptedAs, isPow2le28_eq, accepted_eq_as rest]
     | .type t rest => by simp only [Aligns.accepted, specAcceptedAs, accepted_eq_ty t, accepted_eq_as rest]
   theorem accepted_eq_ms : ∀ (ms : Members), ms.accepted = specAcceptedMs ms
     | .nil => rfl
@@ -743,7 +769,8 @@ mutual
     | _, .nil, _ => rfl
     | r, .const n rest, h => by
       simp only [Aligns.ok, Bool.and_eq_true] at h
-      simp only [Aligns.accepted]; exact ok_accepted_as r rest h.2
+      simp only [Aligns.accepted, Bool.and_eq_true]
+      exact ⟨by simpa [isPow2le28_eq] using h.1, ok_accepted_as r rest h.2⟩
     | r, .type t rest, h => by
       simp only [Aligns.ok, Bool.and_eq_true] at h
       simp only [Aligns.accepted, Bool.and_eq_true]
@@ -762,6 +789,57 @@ mutual
         rw [hb] at hbf
         simp only [Bool.and_eq_true] at hbf
         rw [← isBitfieldBase_eq_isInteger]; exact hbf.1.1.1.1
+end
+
+/-! ### which known-finding region a description touches (printed by `drv_c08 regions`; the check attributes a mismatch
+    between chibicc and gcc to a known finding only inside these) -/
+
+mutual
+  /-- a well-formed description that touches none of the three regions is in the scope of `C08_types_partial` -/
+  theorem ok_of_noRegion_ty : ∀ (t : Ty), t.ok false = true → (∀ k, k < 3 → t.inRegion k = false) → t.ok true = true
+    | .prim _, _, _ => rfl
+    | .enum, _, _ => rfl
+    | .ptr, _, _ => rfl
+    | .arr e n, h, hr => by
+      simp only [Ty.ok, Bool.and_eq_true] at h ⊢
+      exact ⟨ok_of_noRegion_ty e h.1 (fun k hk => by simpa [Ty.inRegion] using hr k hk), h.2⟩
+    | .flex e, h, hr => by
+      simp only [Ty.ok] at h ⊢
+      exact ok_of_noRegion_ty e h (fun k hk => by simpa [Ty.inRegion] using hr k hk)
+    | .struct p al ms, h, hr => by
+      simp only [Ty.ok, Bool.and_eq_true] at h
+      have h0 := hr 0 (by omega)
+      have h1 := hr 1 (by omega)
+      simp only [Ty.inRegion, nodeInRegion, Bool.or_eq_false_iff, Bool.true_and] at h0 h1
+      have ih := ok_of_noRegion_ms ms h.1.1 (fun k hk => by
+        have := hr k hk; simp only [Ty.inRegion, Bool.or_eq_false_iff] at this; exact this.2)
+      simp only [Ty.ok, Bool.and_eq_true, ih, h.1.2, h0.1, h1.1, Bool.not_true, Bool.false_or, Bool.not_false, and_self]
+    | .union p al ms, h, hr => by
+      simp only [Ty.ok, Bool.and_eq_true] at h
+      have h2 := hr 2 (by omega)
+      have h1 := hr 1 (by omega)
+      simp only [Ty.inRegion, nodeInRegion, Bool.or_eq_false_iff, Bool.not_false, Bool.true_and] at h2 h1
+      have ih := ok_of_noRegion_ms ms h.1.1 (fun k hk => by
+        have := hr k hk; simp only [Ty.inRegion, Bool.or_eq_false_iff] at this; exact this.2)
+      simp only [Ty.ok, Bool.and_eq_true, ih, h.1.2, h2.1, h1.1, Bool.not_true, Bool.false_or, Bool.not_false, and_self]
+  theorem ok_of_noRegion_as : ∀ (as : Aligns), as.ok false = true → (∀ k, k < 3 → as.inRegion k = false) → as.ok true = true
+    | .nil, _, _ => rfl
+    | .const n rest, h, hr => by
+      simp only [Aligns.ok, Bool.and_eq_true] at h ⊢
+      exact ⟨h.1, ok_of_noRegion_as rest h.2 (fun k hk => by simpa [Aligns.inRegion] using hr k hk)⟩
+    | .type t rest, h, hr => by
+      simp only [Aligns.ok, Bool.and_eq_true] at h ⊢
+      have hr' : ∀ k, k < 3 → t.inRegion k = false ∧ rest.inRegion k = false := fun k hk => by
+        have := hr k hk; simpa [Aligns.inRegion] using this
+      exact ⟨ok_of_noRegion_ty t h.1 (fun k hk => (hr' k hk).1), ok_of_noRegion_as rest h.2 (fun k hk => (hr' k hk).2)⟩
+  theorem ok_of_noRegion_ms : ∀ (ms : Members), ms.ok false = true → (∀ k, k < 3 → ms.inRegion k = false) → ms.ok true = true
+    | .nil, _, _ => rfl
+    | .cons d as ty rest, h, hr => by
+      simp only [Members.ok, Bool.and_eq_true] at h ⊢
+      have hr' : ∀ k, k < 3 → (as.inRegion k = false ∧ ty.inRegion k = false) ∧ rest.inRegion k = false := fun k hk => by
+        have := hr k hk; simpa [Members.inRegion] using this
+      exact ⟨⟨⟨ok_of_noRegion_ty ty h.1.1.1 (fun k hk => (hr' k hk).1.2), ok_of_noRegion_ms rest h.1.1.2 (fun k hk => (hr' k hk).2)⟩,
+        ok_of_noRegion_as as h.1.2 (fun k hk => (hr' k hk).1.1)⟩, h.2⟩
 end
 
 /-- whole types: the layout the model computes for a well-formed, in-scope type description is the spec's -/
